@@ -94,6 +94,11 @@ type EffectDirective struct {
 
 type PropFile struct{ Prop, File, Re string }
 
+type ClauseAll struct {
+	Re, Clause string
+	Line       int
+}
+
 type EnsuresAll struct {
 	Invariant             bool
 	Prop, Re, Label, Expr string
@@ -101,6 +106,7 @@ type EnsuresAll struct {
 }
 
 type ContractFile struct {
+	ClauseAll  []ClauseAll
 	EnsuresAll []EnsuresAll
 	PropFiles []PropFile
 	Effects  []EffectDirective
@@ -115,7 +121,7 @@ type ContractFile struct {
 }
 
 var propTagRe = regexp.MustCompile(`^(C[0-9]{2}(?:,C[0-9]{2})*)\s+`)
-var callRefRe = regexp.MustCompile(`^@(before|after)\s+call\s+([^\[\s]+)\[(\d+)\]\s*:?\s*`)
+var callRefRe = regexp.MustCompile(`^@(before|after)\s+call\s+([^\[\s]+)\[(\d+|\*)\]\s*:?\s*`)
 var labelRe = regexp.MustCompile(`^([A-Za-z][A-Za-z0-9_.\-]*):\s+`)
 
 func parseContracts(path string) (*ContractFile, error) {
@@ -151,6 +157,15 @@ func parseContracts(path string) (*ContractFile, error) {
 		lines = append(lines, t)
 		lnos = append(lnos, ln)
 	}
+	if err := processContractLines(cf, lines, lnos); err != nil {
+		return nil, err
+	}
+	return cf, nil
+}
+
+// processContractLines interprets contract lines (also used for lines
+// synthesised by "clauseall" directives).
+func processContractLines(cf *ContractFile, lines []string, lnos []int) error {
 	var cur *FuncContract
 	for i, t := range lines {
 		no := lnos[i]
@@ -158,7 +173,7 @@ func parseContracts(path string) (*ContractFile, error) {
 		case strings.HasPrefix(t, "spec "), strings.HasPrefix(t, "macro "):
 			sp, err := parseSpec(strings.TrimSpace(t[strings.Index(t, " "):]))
 			if err != nil {
-				return nil, fmt.Errorf("line %d: %v", no, err)
+				return fmt.Errorf("line %d: %v", no, err)
 			}
 			sp.Line = no
 			sp.Macro = strings.HasPrefix(t, "macro ")
@@ -168,14 +183,14 @@ func parseContracts(path string) (*ContractFile, error) {
 		case strings.HasPrefix(t, "effects C"):
 			fs := strings.Fields(t)
 			if len(fs) < 4 {
-				return nil, fmt.Errorf("line %d: bad effects directive", no)
+				return fmt.Errorf("line %d: bad effects directive", no)
 			}
 			d := EffectDirective{Prop: fs[1], Kind: fs[2]}
 			rest := strings.TrimSpace(strings.SplitN(t, fs[2], 2)[1])
 			if d.Kind == "guarded" {
 				parts := strings.SplitN(rest, " unless ", 2)
 				if len(parts) != 2 {
-					return nil, fmt.Errorf("line %d: effects guarded F unless expr", no)
+					return fmt.Errorf("line %d: effects guarded F unless expr", no)
 				}
 				d.Funcs = []string{strings.TrimSpace(parts[0])}
 				d.Expr = strings.TrimSpace(parts[1])
@@ -192,7 +207,7 @@ func parseContracts(path string) (*ContractFile, error) {
 		case strings.HasPrefix(t, "guard "):
 			fs := strings.Fields(t)
 			if len(fs) != 4 {
-				return nil, fmt.Errorf("line %d: guard Cxx recover Type.field", no)
+				return fmt.Errorf("line %d: guard Cxx recover Type.field", no)
 			}
 			cf.Guards = append(cf.Guards, GuardDirective{fs[1], fs[2], fs[3]})
 			cur = nil
@@ -201,11 +216,11 @@ func parseContracts(path string) (*ContractFile, error) {
 			// stable Cxx Type | f1, f2 | constructor1, constructor2
 			parts := strings.SplitN(strings.TrimPrefix(t, "stable "), "|", 3)
 			if len(parts) != 3 {
-				return nil, fmt.Errorf("line %d: stable Cxx Type | fields | constructors", no)
+				return fmt.Errorf("line %d: stable Cxx Type | fields | constructors", no)
 			}
 			hd := strings.Fields(parts[0])
 			if len(hd) != 2 {
-				return nil, fmt.Errorf("line %d: stable needs property and type", no)
+				return fmt.Errorf("line %d: stable needs property and type", no)
 			}
 			ti := &TypeInv{Prop: hd[0], Type: hd[1], Expr: "", Line: no, Stable: true}
 			for _, f := range strings.Split(parts[1], ",") {
@@ -225,11 +240,11 @@ func parseContracts(path string) (*ContractFile, error) {
 			// typeinv Cxx Type | f1, f2 | owner1, owner2 | expr
 			parts := strings.SplitN(strings.TrimPrefix(t, "typeinv "), "|", 4)
 			if len(parts) != 4 {
-				return nil, fmt.Errorf("line %d: typeinv Cxx Type | fields | owners | expr", no)
+				return fmt.Errorf("line %d: typeinv Cxx Type | fields | owners | expr", no)
 			}
 			hd := strings.Fields(parts[0])
 			if len(hd) != 2 {
-				return nil, fmt.Errorf("line %d: typeinv needs property and type", no)
+				return fmt.Errorf("line %d: typeinv needs property and type", no)
 			}
 			ti := &TypeInv{Prop: hd[0], Type: hd[1], Expr: strings.TrimSpace(parts[3]), Line: no}
 			for _, f := range strings.Split(parts[1], ",") {
@@ -251,6 +266,15 @@ func parseContracts(path string) (*ContractFile, error) {
 			cf.TypeInvs = append(cf.TypeInvs, ti)
 			cur = nil
 			continue
+		case strings.HasPrefix(t, "clauseall "):
+			// clauseall <regexp over function names> :: <any clause line>
+			parts := strings.SplitN(strings.TrimPrefix(t, "clauseall "), " :: ", 2)
+			if len(parts) != 2 {
+				return fmt.Errorf("line %d: clauseall regexp :: clause", no)
+			}
+			cf.ClauseAll = append(cf.ClauseAll, ClauseAll{Re: strings.TrimSpace(parts[0]), Clause: strings.TrimSpace(parts[1]), Line: no})
+			cur = nil
+			continue
 		case strings.HasPrefix(t, "ensuresall "), strings.HasPrefix(t, "invariantall "):
 			// ensuresall Cxx <regexp over function names> <label>: <expr>
 			// invariantall ...: the same expression as an invariant of every loop of those functions
@@ -258,11 +282,11 @@ func parseContracts(path string) (*ContractFile, error) {
 			rest := strings.TrimSpace(t[strings.Index(t, " "):])
 			fs := strings.SplitN(rest, " ", 3)
 			if len(fs) != 3 {
-				return nil, fmt.Errorf("line %d: ensuresall Cxx regexp label: expr", no)
+				return fmt.Errorf("line %d: ensuresall Cxx regexp label: expr", no)
 			}
 			m := labelRe.FindStringSubmatch(fs[2])
 			if m == nil {
-				return nil, fmt.Errorf("line %d: ensuresall needs 'label: expr'", no)
+				return fmt.Errorf("line %d: ensuresall needs 'label: expr'", no)
 			}
 			cf.EnsuresAll = append(cf.EnsuresAll, EnsuresAll{Prop: fs[0], Re: fs[1], Label: m[1], Expr: fs[2][len(m[0]):], Line: no, Invariant: isInv})
 			cur = nil
@@ -270,7 +294,7 @@ func parseContracts(path string) (*ContractFile, error) {
 		case strings.HasPrefix(t, "propagatesfile "):
 			fs := strings.Fields(t)
 			if len(fs) != 4 {
-				return nil, fmt.Errorf("line %d: propagatesfile Cxx file.go regexp", no)
+				return fmt.Errorf("line %d: propagatesfile Cxx file.go regexp", no)
 			}
 			cf.PropFiles = append(cf.PropFiles, PropFile{fs[1], fs[2], fs[3]})
 			cur = nil
@@ -278,7 +302,7 @@ func parseContracts(path string) (*ContractFile, error) {
 		case strings.HasPrefix(t, "sweepfile "), strings.HasPrefix(t, "sweep "):
 			fs := strings.Fields(t)
 			if len(fs) < 3 {
-				return nil, fmt.Errorf("line %d: bad sweep directive", no)
+				return fmt.Errorf("line %d: bad sweep directive", no)
 			}
 			d := SweepDirective{Prop: fs[1]}
 			if fs[0] == "sweepfile" {
@@ -303,7 +327,7 @@ func parseContracts(path string) (*ContractFile, error) {
 			continue
 		}
 		if cur == nil {
-			return nil, fmt.Errorf("line %d: clause outside func: %s", no, t)
+			return fmt.Errorf("line %d: clause outside func: %s", no, t)
 		}
 		c := &Clause{Line: no, Loop: -1}
 		if strings.HasPrefix(t, "assume ") {
@@ -356,15 +380,20 @@ func parseContracts(path string) (*ContractFile, error) {
 		case "modifies":
 			c.Kind = "modifies"
 			c.Expr = rest
+		case "preserves":
+			// preserves Type.field [except e1, e2]: whatever else the function changes, that
+			// field keeps its value in every object other than the listed ones
+			c.Kind = "preserves"
+			c.Expr = rest
 		case "loop":
 			// loop N invariant [label:] expr
 			parts := strings.SplitN(rest, " ", 3)
 			if len(parts) < 3 || parts[1] != "invariant" {
-				return nil, fmt.Errorf("line %d: bad loop clause", no)
+				return fmt.Errorf("line %d: bad loop clause", no)
 			}
 			n, err := strconv.Atoi(parts[0])
 			if err != nil {
-				return nil, fmt.Errorf("line %d: bad loop ordinal", no)
+				return fmt.Errorf("line %d: bad loop ordinal", no)
 			}
 			c.Kind = "invariant"
 			c.Loop = n
@@ -379,22 +408,26 @@ func parseContracts(path string) (*ContractFile, error) {
 			sp := strings.SplitN(rest, " ", 2)
 			c.Label = sp[0]
 			if len(sp) < 2 {
-				return nil, fmt.Errorf("line %d: bad assert", no)
+				return fmt.Errorf("line %d: bad assert", no)
 			}
 			rest = strings.TrimSpace(sp[1])
 			m := callRefRe.FindStringSubmatch(rest)
 			if m == nil {
-				return nil, fmt.Errorf("line %d: assert needs @before/@after call F[k]:", no)
+				return fmt.Errorf("line %d: assert needs @before/@after call F[k]:", no)
 			}
 			c.When, c.Callee = m[1], m[2]
-			c.CallK, _ = strconv.Atoi(m[3])
+			if m[3] == "*" {
+				c.CallK = -1 // every call of that callee
+			} else {
+				c.CallK, _ = strconv.Atoi(m[3])
+			}
 			c.Expr = rest[len(m[0]):]
 		case "ghost":
 			c.Kind = "ghost"
 			// name := expr @before call F[k]
 			j := strings.Index(rest, ":=")
 			if j < 0 {
-				return nil, fmt.Errorf("line %d: bad ghost", no)
+				return fmt.Errorf("line %d: bad ghost", no)
 			}
 			c.Name = strings.TrimSpace(rest[:j])
 			rest = strings.TrimSpace(rest[j+2:])
@@ -406,21 +439,21 @@ func parseContracts(path string) (*ContractFile, error) {
 			}
 			k := strings.LastIndex(rest, "@")
 			if k < 0 {
-				return nil, fmt.Errorf("line %d: ghost needs @before/@after", no)
+				return fmt.Errorf("line %d: ghost needs @before/@after", no)
 			}
 			m := callRefRe.FindStringSubmatch(rest[k:])
 			if m == nil {
-				return nil, fmt.Errorf("line %d: bad ghost call ref", no)
+				return fmt.Errorf("line %d: bad ghost call ref", no)
 			}
 			c.When, c.Callee = m[1], m[2]
 			c.CallK, _ = strconv.Atoi(m[3])
 			c.Expr = strings.TrimSpace(rest[:k])
 		default:
-			return nil, fmt.Errorf("line %d: unknown clause %q", no, word)
+			return fmt.Errorf("line %d: unknown clause %q", no, word)
 		}
 		cur.Clauses = append(cur.Clauses, c)
 	}
-	return cf, nil
+	return nil
 }
 
 var specRe = regexp.MustCompile(`^([A-Za-z_][A-Za-z0-9_]*)\((.*?)\)\s*([^=]+?)\s*=\s*(.*)$`)
